@@ -528,6 +528,8 @@ def _stack_case(rng):
     labs = rng.choice(np.arange(-6, 12), size=nlab, replace=False)
     word = [int(x) for x in rng.choice(labs, ntr)]
     data = rng.integers(-1000, 1001, (ntr, ns))
+    if rng.random() < 0.25:          # saturating traces: per-label sums beyond what a narrow integer dtype holds
+        data = rng.integers(20000, 32768, (ntr, ns)) * rng.choice([-1, 1], size=(1, ns))
     mism = 0
     if rng.random() < 0.05:
         mism = int(rng.choice([-1, 1]))
@@ -594,8 +596,11 @@ def oracle_stack(case):
         return None
     from ibldsp import voltage
     form = case.get('form') or {}
-    if _int_form(form.get('data', 'float64')) and case['agg'] != 'sum':
-        return None       # recorded finding: integer traces + the default nanmean are truncated into the integer dtype
+    # recorded finding: integer traces + the default nanmean are truncated into the integer dtype — exactly that is excluded:
+    # the stacked value may be the mean rounded either way to an integer (|difference| < 1), nothing further away
+    int_mean = _int_form(form.get('data', 'float64')) and case['agg'] != 'sum'
+    if _int_form(form.get('data', 'float64')) and case['agg'] == 'sum' and np.abs(np.array(case['data'])).max() > 1000:
+        return None       # a SUM of saturating integer traces does not fit the traces' dtype: outside what stack can return
     sargs, skw = _stack_args(case, case['word'])
     data, word = np.array(case['data'], dtype=np.float64), np.array(case['word'], dtype=int)
     kw = {'fcn_agg': np.sum} if case['agg'] == 'sum' else {}
@@ -641,7 +646,11 @@ def oracle_stack(case):
             return f'fold of label {g} is {int(fold[i])}, it occurs {len(groups[g])} times'
         blk = np.array(groups[g], dtype=np.float64)
         want = blk.sum(axis=0) if case['agg'] == 'sum' else blk.sum(axis=0) / len(groups[g])
-        if not np.allclose(st[i], want, rtol=1e-6 if _single(form.get('data', '')) else 1e-12, atol=1e-9):
+        if int_mean:
+            if np.any(np.abs(st[i] - want) >= 1):
+                return (f'row {i} (label {g}) is {st[i].tolist()}, the mean of its {len(groups[g])} integer traces is {want.tolist()} '
+                        f'(more than the truncation of the mean into the integer dtype)')
+        elif not np.allclose(st[i], want, rtol=1e-6 if _single(form.get('data', '')) else 1e-12, atol=1e-9):
             return f'row {i} (label {g}) is {st[i].tolist()}, aggregate of its {len(groups[g])} traces is {want.tolist()}'
     return None
 
@@ -1316,6 +1325,8 @@ def correspondence(ctx):
             fm_ = _draw_form(rng, 'stack')
             if case['agg'] != 'sum':
                 fm_['data'] = 'float64'          # bit-exact comparison of the means; other dtypes go through the value oracle
+            elif _int_form(fm_.get('data', 'float64')) and np.abs(np.array(case['data'])).max() > 1000:
+                fm_['data'] = 'float64'          # the SUM of saturating traces does not fit a narrow integer dtype
             case['form'] = fm_
         impl = _stack_impl(case)
         rep = len(set(case['word'])) < len(case['word'])
